@@ -66,10 +66,16 @@ FXUnion == Ext(UnionD("U", <<"E">>))
 DMark == DirectiveD("mark", <<ArgD("w", S)>>, <<"OBJECT", "ENUM">>)
 DE3 == EnumD("E3", <<EV("X")>>)
 
+\* a directive whose argument is an input object with a default, used on a type, and an extension that gives the input
+\* type one more defaulted field: checking the defaults completes them - in a copy, or a refused load leaves its mark
+DCfg == DirectiveD("cfg", <<ArgDD("o", Named("In"), V("obj", [f |-> IntV(2)]))>>, <<"OBJECT", "FIELD_DEFINITION">>)
+DUseCfg == WithDirs(ObjectD("W", <<>>, <<FieldD("w", I, <<>>)>>), <<DU("cfg", <<AV("o", V("obj", [f |-> IntV(4)]))>>)>>)
+XInD == Ext(InputD("In", <<ArgDD("k", I, IntV(5))>>))
+
 GoodDocs ==
   { <<DQuery, DA, DB, DN>>, <<DU1, DE, DIn>>, <<DMut>>, <<DTag, DDate>>, <<XQuery>>, <<XA>>, <<XE, XU>>, <<XIn>>,
     <<DSchema>>, <<DSchemaQ>>, <<DE>>, <<DIn, DMut>>, <<DMut2>>, <<DSub>>, <<XQuery2, XE2>>,
-    <<XAImpl>>, <<DTop, DSchemaTop>>, <<DSub, XSchemaSub>>, <<XSchemaMut>>, <<XDateTag>>, <<DMark, DE3>> }
+    <<XAImpl>>, <<DTop, DSchemaTop>>, <<DSub, XSchemaSub>>, <<XSchemaMut>>, <<XDateTag>>, <<DMark, DE3>>, <<DCfg, DUseCfg>>, <<XInD>> }
 BadDocs ==
   { <<Syntax>>, <<XQuery, Syntax>>, <<DSchemaQ, Syntax>>, <<DE, ReadFault>>, <<XE, ReadFault, XU>>,
     <<XE, FXNotFound>>, <<XQuery, FEmpty>>, <<DSchemaQ, FUndef>>, <<FDup>>, <<XIn, FXDupField>>, <<XQuery, FXKind>>,
@@ -77,7 +83,7 @@ BadDocs ==
     \* an operation root type in a document refused only by the final validation; one type extended twice before the failure
     <<FXIface>>, <<DDate, FXIface>>, <<FXUnion>>,
     <<XDateTag, FEmpty>>, <<XETag, XUTag, FUndef>>, <<XInTag, XNTag, FEmpty>>, <<DSub, CloseFault>>, <<XQuery, XE, CloseFault>>,
-    <<DMark, FUndef>>, <<DMark, DE3, FEmpty>>, <<DE3, FDup>>, <<DMark, FDup>>,
+    <<XInD, FEmpty>>, <<DMark, FUndef>>, <<DMark, DE3, FEmpty>>, <<DE3, FDup>>, <<DMark, FDup>>,
     <<DMut2, FEmpty>>, <<DSub, FInOut>>, <<XQuery, XQuery2, FEmpty>>, <<XE, XE2, FXNotFound>>, <<XIn, XIn2, FXDupField>> }
 G1 == <<DQuery, DA, DB, DN>>
 G2 == <<DU1, DE, DIn>>
